@@ -194,11 +194,30 @@ def run(tier, seed, pid=PID):
             for k in range(nruns):
                 alt = (k == nruns - 1 and nruns > 1 and r.random() < 0.5)
                 if os.path.lexists(lpath):
-                    os.remove(lpath)
-                tgt = target_of(kind, src, out, alt)
-                os.symlink(tgt, lpath)
-                t_id = tids.setdefault(tgt, len(tids) + 1)
-                steps.append("%d:%s" % (t_id, cwd_class(tgt, src, cids)))      # resolution from the directory that holds the link
+                    if os.path.isdir(lpath) and not os.path.islink(lpath):
+                        shutil.rmtree(lpath)
+                    else:
+                        os.remove(lpath)
+                # the KIND of the source entry may change between runs: the link becomes a regular file or a real directory
+                ekind = "link"
+                if k >= 1 and not forced and r.random() < 0.35:
+                    ekind = r.choice(["file", "dir"])
+                if ekind == "file":
+                    with open(lpath, "wb") as fh:
+                        fh.write(("regular file now, run %d of world %d" % (k, i)).encode())
+                    steps.append("F%d" % cids.setdefault(world.sha(lpath), len(cids) + 1))
+                    tgt = None
+                elif ekind == "dir":
+                    os.makedirs(lpath)
+                    with open(lpath + "/child.txt", "wb") as fh:
+                        fh.write(b"child of the real directory")
+                    steps.append("D")
+                    tgt = None
+                else:
+                    tgt = target_of(kind, src, out, alt)
+                    os.symlink(tgt, lpath)
+                    t_id = tids.setdefault(tgt, len(tids) + 1)
+                    steps.append("%d:%s" % (t_id, cwd_class(tgt, src, cids)))      # resolution from the directory that holds the link
                 xargs = ["-X"] if i % 3 == 0 else []
                 if i % 3 == 0:
                     os.setxattr(src + "/t1.txt", "user.note", b"hello")
@@ -214,13 +233,21 @@ def run(tier, seed, pid=PID):
                 outs.append(dclass(dpath, tids, cids))
                 if pid == "C02":
                     continue
-                # statement-level oracle (C17)
-                if mode == "preserve" and prior != "dir":
+                if ekind == "file" and not os.path.isdir(dpath) and not (os.path.isfile(dpath) and not os.path.islink(dpath) and world.sha(dpath) == world.sha(lpath)):
+                    viol.append({"world": i, "mode": mode, "kind": kind, "prior": prior, "run": k + 1, "why": "the source entry became a regular file but the destination entry is not that file (found %s)" % outs[-1], "prop": "C17"})
+                if ekind == "dir" and not (os.path.isfile(dpath) and not os.path.islink(dpath)) and not (os.path.isdir(dpath) and not os.path.islink(dpath) and os.path.isfile(dpath + "/child.txt")):
+                    viol.append({"world": i, "mode": mode, "kind": kind, "prior": prior, "run": k + 1, "why": "the source entry became a real directory but the destination entry is not a directory holding its child (found %s)" % outs[-1], "prop": "C17"})
+                if ekind != "link":
+                    continue
+                # statement-level oracle (C17); what was at the path before THIS run (earlier runs of the history may have put a
+                # regular file or a real directory there)
+                prev = outs[-2] if len(outs) > 1 else dinit
+                if mode == "preserve" and prior != "dir" and prev != "d":
                     if not (os.path.islink(dpath) and os.readlink(dpath) == tgt):
                         viol.append({"world": i, "mode": mode, "kind": kind, "prior": prior, "run": k + 1, "why": "preserve mode: destination is not the symlink %r (found %s)" % (tgt, outs[-1]), "prop": "C17"})
-                if mode == "skip" and prior == "absent" and os.path.lexists(dpath):
+                if mode == "skip" and prior == "absent" and prev == "a" and os.path.lexists(dpath):
                     viol.append({"world": i, "mode": mode, "kind": kind, "run": k + 1, "why": "skip mode created something", "prop": "C17"})
-                if mode == "follow" and prior in ("absent", "file", "otherlink") and kind in ("rel", "abs_src", "abs_out", "chain"):
+                if mode == "follow" and prior in ("absent", "file", "otherlink") and prev != "d" and kind in ("rel", "abs_src", "abs_out", "chain"):
                     real = os.path.realpath(lpath)
                     good = os.path.isfile(dpath) and not os.path.islink(dpath) and os.path.isfile(real) and world.sha(dpath) == world.sha(real)
                     if not good:
